@@ -90,11 +90,27 @@ def run(ctx):
         return "ok " + render(out)
 
     n_cases = 600 if ctx.quick else 30000
-    for _ in range(n_cases):
+    n_limit = 200 if ctx.quick else 6000
+    for case in range(n_cases + n_limit):
         fam = rng.choice(["dt", "ht", "bt"])
         ts, off, si = gen_abs(rng, tv, fam), (gen_rel(rng, tv, fam) if rng.random() < 0.5 else None), gen_rel(rng, tv, fam)
         i = rng.choice([0, 1, 2, 5, 1000, 10**6, 10**12, rng.randint(0, 10**9), -1, -5])
         n = rng.choice([0, 1, 2, 3, 5, 8, -1])
+        if case >= n_cases:
+            # every exact result in range, but only just: the timestamp sits next to a limit of its family and the offset
+            # pulls away from it, so any other order of the additions leaves the range on the way
+            fam = rng.choice(["dt", "ht"])
+            alo, ahi, _, _ = FAMR[fam]
+            unit = rng.choice([1, 10**3, 10**6, 3_600_000_000])
+            r = rng.randint(0, 50) * unit
+            i = rng.randint(0, 12)
+            n = rng.randint(1, 4)
+            step = rng.randint(1, 9) * unit
+            back = (i + n) * step + rng.randint(0, 5) * unit
+            if rng.random() < 0.5:
+                ts, off, si = ahi - 1 - r, -(back + r), step        # near the upper limit, negative offset, positive interval
+            else:
+                ts, off, si = alo + r, back + r, -step             # near the lower limit, positive offset, negative interval
         try:
             timing = Timing.create_with_regular_interval(tv.from_model(R[fam], si), tv.from_model(A[fam], ts),
                                                          None if off is None else tv.from_model(R[fam], off))
